@@ -5,7 +5,8 @@ import ast
 
 from sa.core import Ob
 from sa.pm import AnalysisError, norm, body_nodes
-from sa import gi, df, ru, ct
+from sa import gi, df, ru, ct, sym
+from sa.pm import Undecided
 from sa.gi import IntSet, iv, GuardWalker, SymbolicAtomizer, reach_sets
 from sa.cfg import stmt_paths, struct_dominates
 
@@ -16,30 +17,34 @@ U, E = IntSet.all(), IntSet.empty()
 HEADER_FIELDS = ["version", "previous_block_hash", "merkle_root", "timestamp", "difficulty", "nonce"]
 
 
+_REF = None
+
+
+def _ref():
+    global _REF
+    if _REF is None:
+        import os
+        _REF = ast.parse(open(os.path.join(os.path.dirname(os.path.dirname(os.path.abspath(__file__))), "spec", "ref_block.py")).read())
+    return _REF
+
+
+INTS = lambda t: t in ("count", "i", "idx", "r", "flag_index", "level_index", "node_index", "mask", "left", "byte_index", "bit_index", "tx_count", "leaf_level") or t.startswith(("len(", "flags[", "level_widths[", "d['total_transactions']", "parse_struct('I', f)"))
+
+
+def _refcheck(ctx, rel, dotted, refname, key, ints=None):
+    return sym.against_reference(ctx, ctx.func(rel, dotted), _ref(), refname, key, ints or INTS)
+
+
 # ------------------------------------------------------------------ C14.1
 def c14_1(ctx):
-    s = ctx.func(BLOCK, "Block.stream_header")
-    tr = ct.write_trace(s.node, "f")
-    got = [(i.fmt, i.value) for i in tr]
-    want = list(zip("L##LLL", ["self." + x for x in HEADER_FIELDS]))
-    ctx.check(got == want and all(i.reach is True for i in tr), "header-writer", ctx.where(s), "stream_header writes %s; the 80-byte header is %s" % (got, want), sample={"trace": [repr(i) for i in tr]})
-    p = ctx.func(BLOCK, "Block.parse_as_header")
-    ps = ct.parse_struct_calls(p.node)
-    ok = len(ps) == 1 and ps[0][0] == "L##LLL"
-    unp = [st for st in body_nodes(p.node) if isinstance(st, ast.Assign) and isinstance(st.targets[0], ast.Tuple) and any(c is ps[0][1] for c in ast.walk(st.value))] if ok else []
-    names = [norm(e) for e in unp[0].targets[0].elts] if unp else []
-    rets = df.returns_of(p.node)
-    args = [norm(a) for a in rets[0].value.args] if len(rets) == 1 and isinstance(rets[0].value, ast.Call) else []
+    _refcheck(ctx, BLOCK, "Block.stream_header", "blk_stream_header", "header-writer")
+    _refcheck(ctx, BLOCK, "Block.parse_as_header", "blk_parse_as_header", "header-reader")
     init = ctx.func(BLOCK, "Block.__init__")
-    ok = ok and names == args and len(names) == 6 and init.params()[1:7] == HEADER_FIELDS
-    stores = {norm(st.targets[0]): norm(st.value) for st in body_nodes(init.node) if isinstance(st, ast.Assign)}
-    ok = ok and all(stores.get("self." + x) == x for x in HEADER_FIELDS)
-    ctx.check(ok, "header-reader", ctx.where(p), "parse_as_header does not read L##LLL into the constructor in field order (%s -> %s)" % (names, args), sample={"format": ps[0][0] if ps else None, "order": names})
-    h = ctx.func(BLOCK, "Block._calculate_hash")
-    t = norm(h.node)
-    ctx.check("self.stream_header(s)" in t and "return double_sha256(s.getvalue())" in t, "block-id-digest", ctx.where(h), "_calculate_hash is not double_sha256 of the streamed header")
-    i = ctx.func(BLOCK, "Block.id")
-    ctx.check("return b2h_rev(self.hash())" in norm(i.node), "block-id-text", ctx.where(i), "Block.id is not the reversed hex of the header hash")
+    wi = sym.walk(ctx, init)
+    stores = {e.attr: norm(e.value) for e in wi.effects if e.kind == "setattr" and norm(e.target) == "self"}
+    ctx.check(init.params()[1:7] == HEADER_FIELDS and all(stores.get(x) == x for x in HEADER_FIELDS), "header-fields", ctx.where(init), "Block.__init__ does not take and store the six header fields in order: %s" % {k: stores.get(k) for k in HEADER_FIELDS})
+    _refcheck(ctx, BLOCK, "Block._calculate_hash", "blk_calculate_hash", "block-id-digest")
+    _refcheck(ctx, BLOCK, "Block.id", "blk_id", "block-id-text")
     # cache: if the memo of hash() is effective, every header mutator must invalidate it effectively
     c = ctx.p.cls(BLOCK, "Block")
     hf = ctx.func(BLOCK, "Block.hash")
@@ -63,22 +68,12 @@ def c14_1(ctx):
                       sample={"mutator": m.name, "memo_effective": True})
     else:
         ctx.ok("hash-memo-inert")
-    t = norm(hf.node)
-    ctx.check("self._calculate_hash()" in t, "hash-delegates", ctx.where(hf), "Block.hash does not compute through _calculate_hash")
-    # full block
-    st_ = ctx.func(BLOCK, "Block.stream")
-    t = norm(st_.node)
-    ctx.check("self.stream_header(f)" in t and "self._stream_transactions(f)" in t and t.index("stream_header") < t.index("_stream_transactions"), "block-writer", ctx.where(st_), "Block.stream is not header then transactions")
-    stx = ctx.func(BLOCK, "Block._stream_transactions")
-    tr = ct.write_trace(stx.node, "f")
-    got = [(i.kind, i.fmt, i.value, i.loop) for i in tr]
-    ctx.check(got == [("fmt", "I", "len(self.txs)", None), ("call", "stream", "tx", "tx in self.txs")], "block-tx-writer", ctx.where(stx), "_stream_transactions writes %s, expected compact-size count then every tx" % got)
-    pr = ctx.func(BLOCK, "Block.parse")
-    t = norm(pr.node)
-    ctx.check("block = class_.parse_as_header(f)" in t and "count = parse_struct('I', f)[0]" in t and "block._parse_transactions(f, count, include_offsets=include_offsets)" in t, "block-reader", ctx.where(pr), "Block.parse is not header, compact-size count, transactions")
-    ptx = ctx.func(BLOCK, "Block._parse_transactions")
-    t = norm(ptx.node)
-    ctx.check("for i in range(count):" in t and "tx = class_.Tx.parse(f)" in t and "txs.append(tx)" in t, "block-tx-reader", ctx.where(ptx), "_parse_transactions does not parse `count` transactions in order")
+    wh = sym.walk(ctx, hf)
+    ctx.check(bool(sym.calls_matching(wh, "self._calculate_hash")), "hash-delegates", ctx.where(hf), "Block.hash does not compute through _calculate_hash")
+    _refcheck(ctx, BLOCK, "Block.stream", "blk_stream", "block-writer")
+    _refcheck(ctx, BLOCK, "Block._stream_transactions", "blk_stream_transactions", "block-tx-writer")
+    _refcheck(ctx, BLOCK, "Block.parse", "blk_parse", "block-reader")
+    _refcheck(ctx, BLOCK, "Block._parse_transactions", "blk_parse_transactions", "block-tx-reader")
 
 
 def _mangled(cls_name, attr):
@@ -127,102 +122,48 @@ def _invalidates(m, cls_name):
 
 # ------------------------------------------------------------------ C14.2
 def c14_2(ctx):
+    _refcheck(ctx, MERKLE, "merkle", "mk_merkle", "merkle-levels")
+    _refcheck(ctx, MERKLE, "merkle_pair", ["mk_merkle_pair", "mk_merkle_pair_v2"], "odd-level-duplication")
     m = ctx.func(MERKLE, "merkle")
-    mp = ctx.func(MERKLE, "merkle_pair")
-    loops = [n for n in m.node.body if isinstance(n, ast.While)]
-    ok = len(loops) == 1 and norm(loops[0].test) == "len(hashes) > 1" and any(isinstance(s, ast.Assign) and "merkle_pair(hashes, hash_f)" in norm(s.value) and norm(s.targets[0]) == "hashes" for s in loops[0].body)
-    ctx.check(ok, "merkle-levels", ctx.where(m), "merkle does not reduce level by level with merkle_pair until one hash is left")
-    rets = df.returns_of(m.node)
-    ctx.check(len(rets) == 1 and norm(rets[0].value) == "hashes[0]", "merkle-root", ctx.where(m), "merkle does not return the single remaining hash")
-    # duplication of the last element must happen on every odd level
-    def dup_sites(fn):
-        out = []
-        for n in body_nodes(fn.node):
-            if isinstance(n, ast.If) and norm(n.test) in ("len(hashes) % 2 == 1", "len(hashes) & 1", "len(hashes) % 2", "len(hashes) % 2 != 0", "len(hashes) & 1 == 1"):
-                if any("append(hashes[-1])" in norm(s) or "+ [hashes[-1]]" in norm(s) or "+ hashes[-1:]" in norm(s) for s in n.body):
-                    out.append(n)
-        return out
-    per_level = dup_sites(mp) + [n for n in dup_sites(m) if loops and any(x is n for s in loops[0].body for x in ast.walk(s))]
-    once = [n for n in dup_sites(m) if n not in per_level]
-    ctx.check(bool(per_level), "odd-level-duplication", ctx.where(mp),
-              "the last hash of an odd row is not duplicated on every level of the tree (only %d site(s) outside the per-level code): interior odd rows lose their last node" % len(once),
-              sample={"per_level_sites": len(per_level), "leaf_only_sites": len(once)})
-    t = norm(mp.node)
-    ok = ("for i in range(0, len(hashes), 2):" in t and "hash_f(hashes[i] + hashes[i + 1])" in t) or ("zip(hashes[::2], hashes[1::2])" in t and "hash_f(" in t)
-    ctx.check(ok, "pairwise-hash", ctx.where(mp), "merkle_pair does not hash adjacent pairs left || right")
-    if dup_sites(mp):
-        d = dup_sites(mp)[0]
-        ctx.check(any("hashes = list(hashes)" in norm(s) for s in d.body) or "hashes = list(hashes)" in t, "caller-list-not-mutated", ctx.where(mp, d), "merkle_pair appends the duplicate to the caller's list")
     a = m.node.args
     ctx.check(len(a.defaults) == 1 and norm(a.defaults[0]) == "double_sha256", "merkle-default-hash", ctx.where(m), "merkle's default hash is not double_sha256")
-    # mismatch rejection reached from Block.parse with defaults
-    c = ctx.func(BLOCK, "Block.check_merkle_hash")
-    t = norm(c.node)
-    w = GuardWalker(ru.opaque)
-    ex = w.run(c.node.body)
-    rs = [e for e in ex if ru.is_raise_of("BadMerkleRootError")(e)]
-    ok = len(rs) == 1 and gi.f_equiv(rs[0].cond, ("op", "calculated_hash != self.merkle_root")) and "calculated_hash = merkle([tx.hash() for tx in self.txs], double_sha256)" in t
-    ctx.check(ok, "merkle-mismatch-raises", ctx.where(c), "check_merkle_hash does not raise BadMerkleRootError exactly when merkle([tx.hash()...]) differs from the header's root")
-    st = ctx.func(BLOCK, "Block.set_txs")
-    w = GuardWalker(ru.opaque)
-    w.run(st.node.body)
-    calls = [(s, r) for s, r in w.visits if "self.check_merkle_hash()" in norm(s)]
-    ok = len(calls) == 1 and gi.f_equiv(calls[0][1], gi.f_and(("op", "txs"), ("op", "check_merkle_hash")))
-    ctx.check(ok, "merkle-check-reached", ctx.where(st), "set_txs does not run the merkle check exactly when there are transactions and check_merkle_hash is set")
-    for fn, pname in ((st, "check_merkle_hash"), (ctx.func(BLOCK, "Block.parse"), "check_merkle_hash")):
+    _refcheck(ctx, BLOCK, "Block.check_merkle_hash", "blk_check_merkle_hash", "merkle-mismatch-raises")
+    _refcheck(ctx, BLOCK, "Block.set_txs", "blk_set_txs", "merkle-check-reached")
+    # every entry point that can skip the merkle check checks by default
+    c = ctx.p.cls(BLOCK, "Block")
+    n = 0
+    for name, fn in sorted(c.methods.items()):
         a = fn.node.args
-        names = [x.arg for x in a.args]
+        names = [x.arg for x in a.posonlyargs + a.args]
         d = dict(zip(names[len(names) - len(a.defaults):], a.defaults))
-        ctx.check(isinstance(d.get(pname), ast.Constant) and d[pname].value is True, "merkle-check-default:%s" % fn.name, ctx.where(fn), "%s: check_merkle_hash does not default to True" % fn.name)
+        for k, dv in zip(a.kwonlyargs, a.kw_defaults):
+            d[k.arg] = dv
+        if "check_merkle_hash" in names + [k.arg for k in a.kwonlyargs]:
+            n += 1
+            dv = d.get("check_merkle_hash")
+            ctx.check(isinstance(dv, ast.Constant) and dv.value is True, "merkle-check-default:%s" % name, ctx.where(fn), "Block.%s: check_merkle_hash does not default to True: blocks built through it are accepted with a wrong merkle root unless the caller opts in" % name)
+    ctx.check(n >= 2, "merkle-check-entry-points", BLOCK + ":1", "fewer than two Block methods take check_merkle_hash")
     pr = ctx.func(BLOCK, "Block.parse")
-    ctx.check("block.set_txs(txs, check_merkle_hash=check_merkle_hash)" in norm(pr.node), "merkle-check-forwarded", ctx.where(pr), "Block.parse does not forward check_merkle_hash to set_txs")
+    w = sym.walk(ctx, pr)
+    cs = sym.calls_matching(w, ".set_txs")
+    ok = bool(cs) and all(any(k.arg == "check_merkle_hash" and norm(k.value) == "check_merkle_hash" for k in e.raw.keywords) for e in cs)
+    ctx.check(ok, "merkle-check-forwarded", ctx.where(pr), "Block.parse does not forward check_merkle_hash to set_txs")
 
 
 # ------------------------------------------------------------------ C14.3
 def c14_3(ctx):
     f = ctx.func(MPP, "post_unpack_merkleblock")
-    w = GuardWalker(ru.opaque)
-    ex = w.run(f.node.body)
-    rs = [e for e in ex if e.kind == "raise"]
-    conds = [gi.f_opaques(e.cond) for e in rs]
-    flat = [o for c in conds for o in c]
-    ctx.check("len(hashes) > 0" in flat, "reject-extra-hashes", ctx.where(f), "post_unpack_merkleblock does not reject left-over hashes")
-    ctx.check("idx != len(flags) - 1" in flat, "reject-unconsumed-flag-bytes", ctx.where(f), "post_unpack_merkleblock does not reject unconsumed flag bytes")
-    ctx.check(any(o in ("left_hash != d['header'].merkle_root", "d['header'].merkle_root != left_hash") for o in flat), "reject-root-mismatch", ctx.where(f), "post_unpack_merkleblock does not compare the computed root with the header's")
-    const = ru.const_resolver(ctx, f, {"1 << r + 1"})
-    w2 = GuardWalker(SymbolicAtomizer(ru.subject({"flags[idx]"}), const))
-    ex2 = w2.run(f.node.body)
-    gb = ru.guarded_by_subject(f.node, w2)
-    s = E
-    for e in ex2:
-        if e.kind == "raise" and gb(e):
-            s = s | gi.sat_set(e.cond, U, E)
-    ctx.check(s == iv(("s", 0), None), "reject-padding-bits", ctx.where(f),
-              "post_unpack_merkleblock rejects last-flag-byte values %s where LIMIT = 1 << (r+1) is the first value with a padding bit set; it must reject exactly [LIMIT, +inf)" % s.fmt("LIMIT"),
-              sample={"subject": "flags[idx]", "rejected": s.fmt("1<<(r+1)")})
-    t = norm(f.node)
-    ctx.check("idx, r = divmod(flag_index - 1, 8)" in t, "last-flag-position", ctx.where(f), "the position of the last consumed flag bit is not divmod(flag_index - 1, 8)")
-    ctx.check("d['tx_hashes'] = tx_acc" in t, "matched-ids", ctx.where(f), "matched transaction ids are not returned")
-    ctx.check("hashes = list(reversed(d['hashes']))" in t and "h = hashes.pop()" in norm(ctx.func(MPP, "_recurse").node), "hash-order", ctx.where(f), "hashes are not consumed in depth-first order")
-    # level widths
-    ok = "while count > 1:" in t and "level_widths.append(count)" in t and "count += 1" in t and "count //= 2" in t and "level_widths.append(1)" in t and "level_widths.reverse()" in t
-    ctx.check(ok, "level-widths", ctx.where(f), "tree widths are not ceil-halved from the transaction count up to the root")
-    r = ctx.func(MPP, "_recurse")
-    w = GuardWalker(ru.opaque)
-    ex = w.run(r.node.body)
-    rs = [e for e in ex if e.kind == "raise"]
-    ok = len(rs) == 1 and "left_hash == right_hash" in gi.f_opaques(rs[0].cond) and "node_index * 2 + 1 < level_widths[level_index + 1]" in gi.f_opaques(rs[0].cond)
-    ctx.check(ok, "reject-duplicate-children", ctx.where(r), "_recurse does not reject identical left and right children (CVE-2012-2459) when a right child exists")
-    t = norm(r.node)
-    ok = "right_hash = left_hash" in t and "return (double_sha256(left_hash + right_hash), flag_index)" in t and "if flags[idx] & mask == 0:" in t and "if level_index == len(level_widths) - 1:" in t and "tx_acc.append(h)" in t
-    ctx.check(ok, "traversal-shape", ctx.where(r), "_recurse is not the BIP37 traversal (flag 0: take hash; leaf with flag 1: matched txid; else descend, duplicating a missing right child)")
-    ctx.check("idx, r = divmod(flag_index, 8)" in t and "mask = 1 << r" in t and "flag_index += 1" in t, "flag-bit-order", ctx.where(r), "flag bits are not consumed least-significant first")
+    _refcheck(ctx, MPP, "post_unpack_merkleblock", "mpp_post_unpack_merkleblock", "proof-verifier")
+    _refcheck(ctx, MPP, "_recurse", "mpp_recurse", "traversal")
     m = ctx.func(MPP, "standard_message_post_unpacks")
-    ctx.check("merkleblock=post_unpack_merkleblock" in norm(m.node), "proof-check-registered", ctx.where(m), "merkleblock messages are not post-processed by the proof verifier")
+    w = sym.walk(ctx, m)
+    rets = [e for e in w.exits if e.kind == "return" and isinstance(e.value, ast.Dict)]
+    ok = any(any(isinstance(k, ast.Constant) and k.value == "merkleblock" and norm(v) == "post_unpack_merkleblock" for k, v in zip(e.value.keys, e.value.values)) for e in rets)
+    ctx.check(ok, "proof-check-registered", ctx.where(m), "merkleblock messages are not post-processed by the proof verifier")
 
 
 OBLIGATIONS = [
-    Ob("C14.1", "header writer/reader trace, id = dsha256(header), no stale memo, block writer/reader", c14_1, floor=10, engines="CT,DF", breaks_if="hash(); set_nonce(n); hash()"),
-    Ob("C14.2", "merkle: per-level duplication of the odd element, pairwise hash, mismatch rejection reached with defaults", c14_2, floor=9, engines="CFG,DF", breaks_if="blocks of 5, 6, 9-14 ... transactions"),
-    Ob("C14.3", "BIP37 rejection guards: extra hashes, unconsumed flag bytes, padding bits (interval), root mismatch, duplicate children", c14_3, floor=10, engines="GI,CFG", breaks_if="proof whose last flag byte has exactly the first padding bit set"),
+    Ob("C14.1", "header writer/reader trace, id = dsha256(header), no stale memo, block writer/reader", c14_1, floor=10, engines="SYM,DF", breaks_if="hash(); set_nonce(n); hash()"),
+    Ob("C14.2", "merkle: per-level duplication of the odd element, pairwise hash, mismatch rejection reached with defaults", c14_2, floor=8, engines="SYM", breaks_if="blocks of 5, 6, 9-14 ... transactions"),
+    Ob("C14.3", "BIP37 rejection guards: extra hashes, unconsumed flag bytes, padding bits (interval), root mismatch, duplicate children", c14_3, floor=3, engines="SYM", breaks_if="proof whose last flag byte has exactly the first padding bit set"),
 ]
